@@ -1093,6 +1093,18 @@ theorem evicted_is_least_recently_heard (pre : List Msg) (hlen : pre.length < U3
 example : (storeRun GStore.empty ((List.range 16).map fun i => ((1 : Nat), i, (7 : Nat)))).1.entries ≠ [] := by
   decide
 
+/-- Non-vacuity of the conclusion on a store that is full and was touched out of admission order:
+16 senders admitted, then senders 0, 1, 2 heard again -- the victim is sender 3 (not the first
+admitted), and it was heard strictly before sender 0 and sender 15. -/
+example :
+    let pre : List Msg := ((List.range 16).map fun i => ((1 : Nat), i, (7 : Nat))) ++
+      [(1, 0, 8), (1, 1, 8), (1, 2, 8)]
+    let g := (storeRun GStore.empty pre).1
+    g.entries.length = 16 ∧ lruIdx g.entries = 3 ∧
+      (g.entries[lruIdx g.entries]?).map (fun v => (v.fab, v.node)) = some (1, 3) ∧
+      lastSeen pre.reverse 1 3 < lastSeen pre.reverse 1 0 ∧
+      lastSeen pre.reverse 1 3 < lastSeen pre.reverse 1 15 := by decide
+
 /-! ## Unsecured sessions, whole histories -/
 
 /-- representation invariant of an unsecured session's window w.r.t. the current epoch:
